@@ -148,9 +148,16 @@ def impl_dist(c):
         kw["times"] = tt([x / T_ for x in c["times"][:-1]])
         kw["relative_times"] = True
     rho = c["rho"][-1:] if c["short_rho"] else c["rho"]
-    return bdsk.PiecewiseConstantBirthDeath(
-        tt(c["lam"]), tt(c["mu"]), tt(c["psi"]), rho=tt(rho), origin=origin, origin_is_root_edge=c["root_edge"],
-        survival=c["survival"], removal_probability=None if c["r"] is None else tt(c["r"]), **kw)
+    inputs = {"lambda_": tt(c["lam"]), "mu": tt(c["mu"]), "psi": tt(c["psi"]), "rho": tt(rho), "origin": origin}
+    if c["r"] is not None:
+        inputs["removal_probability"] = tt(c["r"])
+    if "times" in kw:
+        inputs["times"] = kw["times"]
+    d = bdsk.PiecewiseConstantBirthDeath(
+        inputs["lambda_"], inputs["mu"], inputs["psi"], rho=inputs["rho"], origin=origin, origin_is_root_edge=c["root_edge"],
+        survival=c["survival"], removal_probability=inputs.get("removal_probability"), **kw)
+    d._c09_inputs = inputs
+    return d
 
 
 def impl_value(c):
@@ -158,12 +165,39 @@ def impl_value(c):
     torch = T()["torch"]
     try:
         d = impl_dist(c)
-        v = d.log_prob(torch.tensor(c["tips"] + c["ints"], dtype=torch.float64))
+        heights = torch.tensor(c["tips"] + c["ints"], dtype=torch.float64)
+        supplied = {k: t_.clone() for k, t_ in d._c09_inputs.items()}
+        supplied["node_heights"] = heights.clone()
+        held = dict(d._c09_inputs, node_heights=heights)
+        v = d.log_prob(heights)
         if v.dim() != 0 and v.numel() != 1:
             return "vector", list(v.shape)
-        return "ok", float(v.reshape(()).item())
+        v1 = float(v.reshape(()).item())
+        # the evaluation must not write into what it was given …
+        for k, t_ in held.items():
+            if not same_bits(t_, supplied[k]):
+                return "mutated", f"{k}: supplied {supplied[k].tolist()}, after log_prob {t_.tolist()}"
+        # … and evaluating the same object again must give the same value
+        v2 = float(d.log_prob(heights).reshape(()).item())
+        if not (v1 == v2 or (math.isnan(v1) and math.isnan(v2))):
+            return "unstable", f"first evaluation {v1!r}, second evaluation of the same object {v2!r}"
+        for k, t_ in held.items():
+            if not same_bits(t_, supplied[k]):
+                return "mutated", f"{k}: supplied {supplied[k].tolist()}, after the second log_prob {t_.tolist()}"
+        return "ok", v1
     except Exception as e:
         return "raise", f"{type(e).__name__}: {str(e)[:120]}"
+
+
+def same_bits(a, b) -> bool:
+    """bit-identical tensors (shape, dtype, every element incl. the sign of zero; NaN equals NaN)"""
+    torch = T()["torch"]
+    if a.shape != b.shape or a.dtype != b.dtype:
+        return False
+    if a.dtype.is_floating_point:
+        return bool(torch.equal(a.detach().contiguous().view(torch.int64) if a.dtype == torch.float64 else a.detach().to(torch.float64).contiguous().view(torch.int64),
+                                b.detach().contiguous().view(torch.int64) if b.dtype == torch.float64 else b.detach().to(torch.float64).contiguous().view(torch.int64)))
+    return bool(torch.equal(a, b))
 
 
 def effective_times(c):
@@ -356,6 +390,11 @@ def run(ck: Check):
             if kind == "ok" and math.isnan(val):
                 fail(f"bdsk:log_prob-nan:{'rho-one' if 1.0 in c['rho'] else feats[0]}", f"log_prob is NaN on a valid input [{', '.join(feats)}; rho = {c['rho']}, r = {c['r']}]",
                      dict(replay, impl="nan"))
+                continue
+            if kind in ("mutated", "unstable"):
+                fail(f"bdsk:{'mutates-input' if kind == 'mutated' else 'second-evaluation-differs'}:{'relative-times' if c['mode'] == 'relative' else feats[0]}",
+                     f"log_prob {'writes into a tensor it was given — ' if kind == 'mutated' else 'is not repeatable — '}{val} "
+                     f"[{', '.join(feats)}; mode {c['mode']}]", dict(replay, impl=[kind, val]))
                 continue
             if kind != "ok":
                 fail(f"bdsk:log_prob-fails:{feats[0]}", f"log_prob {'returns a vector ' + str(val) if kind == 'vector' else 'raises ' + val} [{', '.join(feats)}]",
@@ -590,11 +629,13 @@ def histories(ck, fail):
         c["mode"], c["root_edge"], c["short_rho"], c["r"] = "given", False, False, None
         m = len(c["lam"])
         with_r = rng.random() < 0.4
+        rel = m > 1 and c["times"][-1] != 1.0 and trial % 2 == 0  # explicit RELATIVE times, origin != 1
         for cls in (("BDSKModel", "BirthDeathModel") if m == 1 else ("BDSKModel",)):
             st = {"R": [l / (mu + ps) for l, mu, ps in zip(c["lam"], c["mu"], c["psi"])], "delta": [mu + ps for mu, ps in zip(c["mu"], c["psi"])],
                   "s": [ps / (mu + ps) for mu, ps in zip(c["mu"], c["psi"])], "lambda": list(c["lam"]), "mu": list(c["mu"]), "psi": list(c["psi"]),
-                  "rho": list(c["rho"]), "origin": [c["times"][-1]], "times": list(c["times"][:-1]), "tree.heights": list(c["ints"]),
-                  "rem": [0.5] * m}
+                  "rho": list(c["rho"]), "origin": [c["times"][-1]],
+                  "times": [x / c["times"][-1] for x in c["times"][:-1]] if rel else list(c["times"][:-1]),
+                  "tree.heights": list(c["ints"]), "rem": [0.5] * m}
 
             def spec_of(st):
                 cc = dict(c, ints=list(st["tree.heights"]))
@@ -603,11 +644,20 @@ def histories(ck, fail):
                           "s": P("s", st["s"]), "rho": P("rho", st["rho"]), "origin": P("origin", st["origin"]), "survival": c["survival"]}
                     if m > 1:
                         sp["times"] = P("times", st["times"])
+                        if rel:
+                            sp["relative_times"] = True
                     if with_r:
                         sp["removal_probability"] = P("rem", st["rem"])
                     return sp
                 return {"id": "model", "type": "BirthDeathModel", "tree_model": tree_json(cc), "lambda": P("lambda", st["lambda"]), "mu": P("mu", st["mu"]),
                         "psi": P("psi", st["psi"]), "rho": P("rho", st["rho"]), "origin": P("origin", st["origin"]), "survival": c["survival"]}
+
+            def inputs_intact(dic, st, names):
+                """every Parameter still holds, bit for bit, the tensor it was given"""
+                for nm_ in names:
+                    if nm_ in dic and not same_bits(dic[nm_].tensor, tt(st[nm_])):
+                        return f"{nm_}: supplied {st[nm_]}, now {dic[nm_].tensor.tolist()}"
+                return None
 
             try:
                 model, dic = build(spec_of(st))
@@ -642,12 +692,26 @@ def histories(ck, fail):
                 try:
                     dic[nm].tensor = tt(st[nm])
                     v = float(model().reshape(()).item())
+                    broken = inputs_intact(dic, st, names)
+                    # a second evaluation of the SAME object with nothing changed (cache bypassed)
+                    model.lp_needs_update = True
+                    v_again = float(model().reshape(()).item())
+                    broken = broken or inputs_intact(dic, st, names)
                     fresh, _ = build(spec_of(st))
                     fv = float(fresh().reshape(()).item())
                 except Exception as e:
                     fail(f"{cls}:history-raises:{type(e).__name__}", f"{cls}: after updating {hist} evaluation raises {e!r}"[:220], replay)
                     break
-                ck.case(("history", cls, trial, step), nontrivial=True, bucket=f"history/{cls}/{nm}")
+                ck.case(("history", cls, trial, step), nontrivial=True, bucket=f"history/{cls}/{'relative/' if rel else ''}{nm}")
+                replay["relative_times"] = rel
+                if broken:
+                    fail(f"{cls}:mutates-input:{'relative-times' if rel else 'plain'}", f"{cls}: evaluation wrote into a Parameter's tensor — {broken} "
+                         f"(history {hist}{', relative_times' if rel else ''})", replay)
+                    break
+                if not (v == v_again or (math.isnan(v) and math.isnan(v_again))):
+                    fail(f"{cls}:second-evaluation-differs:{'relative-times' if rel else 'plain'}", f"{cls}: evaluating the same object twice gives {v!r} then {v_again!r} "
+                         f"(history {hist}{', relative_times' if rel else ''})", replay)
+                    break
                 if not (close(v, fv, 1e-12) or (math.isnan(v) and math.isnan(fv))):
                     fail(f"{cls}:stale-after-update:{nm}", f"{cls}: after updating {nm} through Parameter.tensor (history {hist}) the model returns {v!r}, "
                          f"a freshly built model {fv!r}", replay)
@@ -701,9 +765,17 @@ def batches(ck, drv, fail):
                 tt([c["lam"] for c in samples]), tt([c["mu"] for c in samples]), tt([c["psi"] for c in samples]),
                 rho=tt([c["rho"] for c in samples]), origin=tt([[T_]] * 3), times=tt([c["times"][:-1] for c in samples]),
                 survival=base["survival"], removal_probability=None if not use_r else tt([c["r"] for c in samples]))
+            held = {"lambda_": d.lambda_, "mu": d.mu, "psi": d.psi, "rho": d.rho, "origin": d.origin, "times": d.times}
+            if use_r:
+                held["removal_probability"] = d.removal_probability
+            before = {k: t_.clone() for k, t_ in held.items()}
             v = d.log_prob(tt([c["tips"] + c["ints"] for c in samples]))
             rows = [float(x) for x in v.reshape(-1).tolist()]
             err = None if len(rows) == 3 else f"result has shape {list(v.shape)}"
+            for k, t_ in held.items():
+                if not same_bits(t_, before[k]):
+                    fail(f"bdsk:mutates-input:batch", f"batched log_prob wrote into its input {k}: {before[k].tolist()} -> {t_.tolist()}",
+                         {"special": special, "samples": [slim(c) for c in samples], "case": slim(samples[1])})
         except Exception as e:
             rows, err = None, f"{type(e).__name__}: {str(e)[:120]}"
         replay = {"special": special, "samples": [slim(c) for c in samples], "case": slim(samples[1])}
@@ -737,7 +809,9 @@ def histories_replay(obj, out):
     cls, m = obj["class"], len(obj["case"]["lam"])
     st = {"R": [l / (mu + ps) for l, mu, ps in zip(c["lam"], c["mu"], c["psi"])], "delta": [mu + ps for mu, ps in zip(c["mu"], c["psi"])],
           "s": [ps / (mu + ps) for mu, ps in zip(c["mu"], c["psi"])], "lambda": list(c["lam"]), "mu": list(c["mu"]), "psi": list(c["psi"]),
-          "rho": list(c["rho"]), "origin": [c["times"][-1]], "times": list(c["times"][:-1]), "tree.heights": list(c["ints"]), "rem": [0.5] * m}
+          "rho": list(c["rho"]), "origin": [c["times"][-1]],
+          "times": [x / c["times"][-1] for x in c["times"][:-1]] if obj.get("relative_times") else list(c["times"][:-1]),
+          "tree.heights": list(c["ints"]), "rem": [0.5] * m}
 
     def spec_of(st):
         cc = dict(c, ints=list(st["tree.heights"]))
@@ -746,6 +820,8 @@ def histories_replay(obj, out):
                   "s": P("s", st["s"]), "rho": P("rho", st["rho"]), "origin": P("origin", st["origin"]), "survival": c["survival"]}
             if m > 1:
                 sp["times"] = P("times", st["times"])
+                if obj.get("relative_times"):
+                    sp["relative_times"] = True
             if obj.get("with_removal"):
                 sp["removal_probability"] = P("rem", st["rem"])
             return sp
@@ -760,6 +836,13 @@ def histories_replay(obj, out):
             st[nm] = obj["state"][nm]
             dic[nm].tensor = torch.tensor(st[nm], dtype=torch.float64)
             v = float(model().reshape(()).item())
+            model.lp_needs_update = True
+            v2 = float(model().reshape(()).item())
+            for k_ in st:
+                if k_ in dic and not same_bits(dic[k_].tensor, torch.tensor(st[k_], dtype=torch.float64)):
+                    out.append(f"after updating {nm}: Parameter {k_} was given {st[k_]}, now holds {dic[k_].tensor.tolist()}")
+            if not (v == v2 or (math.isnan(v) and math.isnan(v2))):
+                out.append(f"after updating {nm}: the same object evaluates to {v!r} then {v2!r}")
             fv = float(build(spec_of(st))[0]().reshape(()).item())
             if not (close(v, fv, 1e-12) or (math.isnan(v) and math.isnan(fv))):
                 out.append(f"after updating {nm}: live model {v!r}, fresh model {fv!r}")
